@@ -208,6 +208,10 @@ def function_guards(c, suffix, exits, obl_names):
     return None
 
 
+AFTER_FAILURE_PATHS = 40
+UNIT_SECONDS = 1800        # one job (a lemma, or one slice of a function's decision tree)
+
+
 class Verifier:
     def __init__(self, registry, goal_timeout_ms=60000, keep_smt2=False, pid=None):
         self.pid = pid
@@ -223,15 +227,28 @@ class Verifier:
         t0 = time.time()
         done = 0
         res.pending = []
+        since_fail = 0
         while stack:
             if budget is not None and done >= budget:
                 res.pending = stack
                 break
+            # a failed obligation decides the unit: look a little further (other obligations of
+            # the same unit may fail too), then stop instead of exhausting a tree that a broken
+            # callee may have made exponentially larger
+            if any(o['status'] == 'failed' for o in res.obls.values()):
+                since_fail += 1
+                if since_fail > AFTER_FAILURE_PATHS:
+                    res.truncated = True
+                    break
             script = stack.pop()
             done += 1
             res.paths += 1
             if res.paths > MAX_PATHS:
                 res.engine_error = 'path limit'
+                break
+            if time.time() - t0 > UNIT_SECONDS:
+                res.engine_error = (f'time budget of {UNIT_SECONDS} s for one job exhausted after '
+                                    f'{done} paths (undecided)')
                 break
             ctx = Ctx(script, self.goal_timeout_ms, self.keep_smt2)
             it = Interp(ctx, self.registry)
